@@ -28,7 +28,7 @@ META = {
                    "CrossHair on the charge/prefix/suffix string helpers (X)",
     "bounds": {"quick": "L1: all code points 0..0x2FF on 2/3-character windows, count windows of 6; L2: ~700 generated skeletons (depth <= 2, "
                         "<= 3 terms per group, elements from an adjacency-critical set of 10, all bracket kinds, hydrates, charges, prefixes, "
-                        "suffixes, primes), numerals arbitrary positive reals / integers; L3: strings of length <= 4",
+                        "suffixes, primes) + 5 hand-written long skeletons (20-60 characters, <= 16 terms), numerals arbitrary positive reals / integers (as VALUES: the digit strings reach the code through the injected int/float; long digit strings only as concrete family witnesses); L3: strings of length <= 4",
                "thorough": "L2: ~42000 skeletons (depth <= 3, <= 4 terms)"},
     "assumptions": [
         "stubs: chempy.util.parsing.float / .int are injected so that every numeral token denotes a z3 variable (lexing of digits is L1/L3)",
